@@ -5,7 +5,7 @@ SPEC = {
     "tie": ["Tie.C13"],
     "engines": [{"engine": "localfs", "timeout": 900}],
     "required_theorems": [
-        "C13_atomic_durable", "C13_quiescent_after_crash", "C13_order", "C13_order_mkdir",
+        "C13_atomic_durable", "C13_quiescent_after_crash", "C13_hypotheses_reachable", "C13_order", "C13_order_mkdir",
         "C13_immutable", "C13_immutable_after_upload", "C13_progress_guarded", "C13_progress_of_pos",
         "C13_F1_no_progress_as_found", "C13_F1_empty_data_never_returns", "C13_F1_immutable_empty_upload_hangs",
         "C13_confined", "C13_dot_key_escapes", "C13_F4_reupload_after_killed_upload_not_durable",
